@@ -548,6 +548,44 @@ func apiCase(vec J) (rec J) {
 		err := (&deb.Deb{}).Close()
 		rec["err"] = err != nil
 		rec["equal"] = err == nil
+	case "parsefile-missing-dsc":
+		_, err := control.ParseDscFile("/nonexistent/verif/x.dsc")
+		setErr(err)
+	case "parsefile-missing-changes":
+		_, err := control.ParseChangesFile("/nonexistent/verif/x.changes")
+		setErr(err)
+	case "parsefile-missing-control":
+		_, err := control.ParseControlFile("/nonexistent/verif/control")
+		setErr(err)
+	case "parsefile-missing-changelog":
+		_, e1 := changelog.ParseFile("/nonexistent/verif/changelog")
+		_, e2 := changelog.ParseFileOne("/nonexistent/verif/changelog")
+		rec["err"] = e1 != nil && e2 != nil
+	case "getdsc-listed-but-missing":
+		dir, err := os.MkdirTemp("", "verif-getdsc-")
+		if err != nil {
+			die("mkdtemp: %v", err)
+		}
+		defer os.RemoveAll(dir)
+		text := "Format: 1.8\nSource: pkg\nBinary: a\nArchitecture: source\nVersion: 1.0-1\nDistribution: unstable\nUrgency: low\nMaintainer: A <a@b>\nChanged-By: A <a@b>\nChanges:\n x\nFiles:\n d41d8cd98f00b204e9800998ecf8427e 0 utils optional pkg_1.0-1.dsc\n"
+		c, err := control.ParseChanges(bufio.NewReader(strings.NewReader(text)), filepath.Join(dir, "pkg.changes"))
+		if err != nil {
+			die("api: %v", err)
+		}
+		d, err := c.GetDSC()
+		rec["err"] = err != nil && d == nil
+	case "unmarshal-empty-number-fields":
+		var v struct {
+			Name string
+			I    int
+			U    uint
+		}
+		v.I, v.U = 7, 7
+		err := control.Unmarshal(&v, strings.NewReader("Name: n\nI:\nU:\n"))
+		rec["err"] = err != nil
+		rec["equal"] = v.I == 0 && v.U == 0 && v.Name == "n"
+	case "stageset-without-stages":
+		rec["equal"] = (dependency.StageSet{}).String() == "" && (dependency.StageSet{Stages: []dependency.Stage{}}).String() == ""
 	case "gz-compressor-roundtrip":
 		c, err := hashio.GetCompressor("gz")
 		if err != nil {
